@@ -122,6 +122,9 @@ func c12Exec(plan *Plan, st *Stats) *Violation {
 				last := d.last
 				r := d.h.Next(op.Arg) // raw argument: nothing is being chosen
 				settle(bubble)
+				if d.h.releaseAuto() {
+					settle(bubble)
+				}
 				d.last = last
 				if op.Arg != 0 {
 					nonzero = true
